@@ -276,7 +276,8 @@ Record nrec := mkN {
   r_year : nat; r_month : nat; r_day : nat; r_hour : nat; r_min : nat;
   r_sec10 : nat;                  (* tenths of a second (v3: a multiple of 10) *)
   r_nums : list (option num);     (* 29 printed values; None = blank column *)
-  r_extra : nat                   (* number of continuation lines (7; GLONASS/SBAS: 3) *)
+  r_extra : nat;                  (* number of continuation lines (7; GLONASS/SBAS: 3) *)
+  r_yblank : bool                 (* v2: the two-digit year printed under I2 (" 5") instead of I2.2 ("05") *)
 }.
 
 Definition dchar (n : nat) : ascii := ascii_of_nat (48 + n).
@@ -297,7 +298,7 @@ Definition epoch_text (v : version) (r : nrec) : string :=
     r_sys r ++ two (r_prn r) ++ " " ++ four (r_year r) ++ " " ++ two (r_month r) ++ " " ++ two (r_day r) ++ " "
       ++ two (r_hour r) ++ " " ++ two (r_min r) ++ " " ++ two (r_sec10 r / 10)
   else
-    pad2 (r_prn r) ++ " " ++ two (r_year r mod 100) ++ " " ++ pad2 (r_month r) ++ " " ++ pad2 (r_day r) ++ " "
+    pad2 (r_prn r) ++ " " ++ (if r_yblank r then pad2 (r_year r mod 100) else two (r_year r mod 100)) ++ " " ++ pad2 (r_month r) ++ " " ++ pad2 (r_day r) ++ " "
       ++ pad2 (r_hour r) ++ " " ++ pad2 (r_min r) ++ f51 (r_sec10 r).
 
 Fixpoint cont_lines (ld : nat) (k : nat) (nums : list (option num)) : list string :=
